@@ -205,9 +205,20 @@ def homog_case(draw, kind=None, d=None, kinds=None):
         c["t"] = draw(gen.vec(d))
         # perspective row small relative to the coordinate range (|x| <= ~20): divisor in [0.5, 1.5]
         c["persp"] = draw(st.lists(gen.q(-0.008, 0.008, 1 << 16), min_size=d, max_size=d))
+        # the same map may be stored with any overall homogeneous scale (bottom-right entry w != 1); in a third of
+        # the cases the perspective row is exactly zero (an affine map stored in a plain Homogeneous)
+        c["w"] = draw(st.sampled_from([1.0, 1.0, 2.5, 0.5, -2.0, 4.0]))
+        if draw(st.integers(0, 2)) == 0:
+            c["persp"] = [0.0] * d
     elif kind == "Affine":
         c["lin"] = draw(gen.linear_case(d))
         c["t"] = draw(gen.vec(d))
+        form = draw(st.sampled_from(["float"] * 6 + ["int", "identity"]))
+        if form == "int":
+            # a user-supplied integer-dtype matrix (legal): small integer entries, |det| >= 1, condition <= 60
+            c["imat"] = draw(int_affine_case(d))
+        elif form == "identity":
+            c["identity"] = True
     elif kind == "Similarity":
         c["rot"] = draw(gen.orthogonal_case(d, allow_reflection=True))
         c["s"] = draw(gen.q(0.25, 4))
@@ -237,13 +248,29 @@ def homog_case(draw, kind=None, d=None, kinds=None):
     return c
 
 
+@st.composite
+def int_affine_case(draw, d):
+    def ok(rows):
+        m = np.array(rows, dtype=float)
+        return abs(np.linalg.det(m)) >= 1 and np.linalg.cond(m) <= 60
+
+    lin = draw(st.lists(st.lists(st.integers(-3, 3), min_size=d, max_size=d), min_size=d, max_size=d).filter(ok))
+    t = draw(st.lists(st.integers(-5, 5), min_size=d, max_size=d))
+    rows = [list(lin[i]) + [t[i]] for i in range(d)] + [[0] * d + [1]]
+    return rows
+
+
 def ref_h(case):
     """Independent homogeneous matrix of a plain (non-alignment) homogeneous-family case."""
     kind, d = case["kind"], case["d"]
+    if case.get("imat") is not None:
+        return np.array(case["imat"], dtype=float)
+    if case.get("identity"):
+        return np.eye(d + 1)
     if kind == "Homogeneous":
         h = _hm(gen.build_linear(d, case["lin"]), case["t"])
         h[d, :d] = case["persp"]
-        return h
+        return h * float(case.get("w", 1.0))
     if kind == "Affine":
         return _hm(gen.build_linear(d, case["lin"]), case["t"])
     if kind == "Similarity":
@@ -264,6 +291,10 @@ def build_homog(case):
     from menpo.shape import PointCloud
 
     kind, d = case["kind"], case["d"]
+    if case.get("imat") is not None:
+        return getattr(mt, kind)(np.array(case["imat"], dtype=np.int64))
+    if case.get("identity"):
+        return getattr(mt, kind).init_identity(d)
     if kind in ("Homogeneous", "Affine", "Similarity"):
         return getattr(mt, kind)(ref_h(case))
     if kind == "Rotation":
